@@ -3,6 +3,8 @@ package checks
 import (
 	"time"
 
+	vmcommon "github.com/ElrondNetwork/elrond-vm-common"
+
 	"verif/engine/explore"
 	"verif/engine/uni"
 	"verif/engine/world"
@@ -33,11 +35,19 @@ func transferProfile(tier Tier) *explore.Profile {
 	return &explore.Profile{
 		Name:   "transfer",
 		EnvCfg: ledgerEnv(o.shards),
-		Seeds:  seedsOf("fung", "sft", "mixed", "frozen", "refunds"),
+		Seeds:  seedsOf("fung", "sft", "mixed", "frozen", "refunds", "refunds-with-call"),
 		Menu: func(w *world.World) []world.Action {
 			acts := transferMenu(w, o)
 			acts = append(acts, deliveries(w)...)
 			acts = append(acts, freezeMenu(w, o, false)...)
+			// metadata updates by the role holder on the copies it kept (no balance changes; they
+			// must not disturb later deliveries and refunds)
+			if held(w, uni.A0, "S\x01") > 0 {
+				acts = append(acts, uni.Call(uni.A0, uni.A0, vmcommon.BuiltInFunctionESDTNFTUpdateAttributes, uni.S, uni.Big(1), []byte("b")))
+			}
+			if held(w, uni.A0, "S\x02") > 0 {
+				acts = append(acts, uni.Call(uni.A0, uni.A0, vmcommon.BuiltInFunctionESDTNFTAddURI, uni.S, uni.Big(2), []byte("v")))
+			}
 			return acts
 		},
 		Depth:    depth,
